@@ -129,7 +129,7 @@ def gen_case(rng, cid, prof):
     nmaps = rng.choice(prof.get("nmaps", [1, 1, 2, 3]))
     accepted = rng.random() >= prof.get("unaccepted_p", 0.03)
     d_oct = rng.choice([0, 0, 0, 1, -1, 2, -2] + prof.get("extra_oct", [10, -10]))
-    d_semi = rng.choice([0, 0, 0, 1, -1, 3, -3, 11])
+    d_semi = rng.choice([0, 0, 0, 1, -1, 3, -3, 11] + prof.get("extra_semi", []))
     d_ch = rng.choice([1, 1, 2, 8, 15, 16]) if accepted else rng.choice([0, 17, 16, 1])
     d_map = rng.randrange(nmaps)
     vel = rng.choice([64, 64, 1, 127, rng.randint(1, 127)]) if accepted else rng.choice([0, 128, 64, 300])
